@@ -1011,7 +1011,7 @@ class ExprMixin:
             raise Unsupported(f"method {ci.name}.{name} has no contract")
         raise Unsupported(f"method {name} on {recv.t} at {self.loc(node)}")
 
-    def apply_contract(self, st: State, c, fdef, mi, env, node):
+    def apply_contract(self, st: State, c, fdef, mi, env, node, fresh_self=False):
         """Replace a call by the callee's contract: check requires, havoc assigns, assume ensures."""
         # defaults are evaluated in the callee's module
         frame = {"__module__": static("modinfo", mi)}
@@ -1060,7 +1060,7 @@ class ExprMixin:
                 raise Unsupported("callee with side effects inside a comprehension body")
             if c.allocates:
                 st.havoc_alloc()
-            self._havoc_locs_in(st, c.assigns, frame)
+            self._havoc_locs_in(st, [a_ for a_ in c.assigns if not (fresh_self and a_.startswith("self."))], frame)
             ret = NONE
             if c.returns is not None:
                 rt = parse_type(self.ret_type(c))
